@@ -11,6 +11,12 @@ from common import T_COMMON
 #                             start, Gosched sprinkled, yielding processors, globally unique update values);
 #                             the driver searches a linearization (untrusted) and answers what the verified
 #                             PolyVerif.Linz.checkWitness says about the order found
+#   c13.holds.results_immutable  FILE family (parameter.File parameters feeding the repo's real basics.BinaryNode producers): every
+#                             client keeps the slices it received (ParameterData bytes, Binary.Data of artifacts) with a digest taken
+#                             at return time and re-digests them after its later operations and after the history ended (plus one more
+#                             shorter update): a result is a VALUE, no later update may change it in place. The same histories go
+#                             through c13.holds.linearizable with the return-time values. (Added after seeded change C13-m3 —
+#                             File.ApplyMessage recycling its previous buffer — was missed.)
 #   n = number of concurrent histories; plus n/2 c13.seq lines and n/8 one-client histories through the same oracle.
 # Extra: the same stream built with `go build -race`; a DATA RACE report (exit code 66) fails the extra.
 #   quick: one run in which the stream itself varies GOMAXPROCS 1/2/4/16 per history;
@@ -69,6 +75,10 @@ CFG = dict(
              "the driver's linearization search is NOT trusted: its result is validated by the verified checkWitness, which also checks that the "
              "recorded history is well formed (unique invocation ids, at most one response per id, response after invocation)"],
     residue=["data-race freedom is the race detector's verdict on the generated schedules, not a theorem",
+             "value semantics of returned results is NOT in the model (responses of the model are values by construction): that the bytes "
+             "returned by ParameterData and inside an artifact do not alias buffers a later update writes is checked on the implementation "
+             "(c13.holds.results_immutable: parameter.File + the real basics.BinaryNode, payloads of decreasing/equal length, results "
+             "re-digested after later updates and after the history), for the parameter and artifact types the harness uses only",
              "linearizability is proved of the FINE-GRAINED locked system FExec (multi-step critical sections, fine_linearizable via the "
              "refinement fine_refines_atomic, which uses mutual exclusion); that the Go functions ARE such clients — every access to shared "
              "state between Lock and Unlock, micro-steps composing to the sequential effect (programs_correct: artifactTrace splits "
@@ -105,14 +115,16 @@ CFG = dict(
              "return (the last event); the extractor refuses any lock operation, access or return under control flow. Tie: sequential replays "
              "on a real graph.Instance match the model exactly; histories recorded from 1–16 goroutines (GOMAXPROCS 1/2/4/16, unique update "
              "values, yielding processors) are linearized by an untrusted search whose witness the verified checker validates; the same stream "
-             "under the race detector.",
+             "under the race detector; results held by clients (ParameterData bytes, artifact bytes of parameter.File + basics.BinaryNode) are "
+             "re-digested after later completed updates (results_immutable).",
         note="Trusted: Lean kernel + 3 axioms; the syntactic lock-fact extractor (self-tested on 18 seeded variants of instance.go); harness; "
              "Go's sync.Mutex; the race detector. Runtime residue: data-race freedom is the race detector's verdict on the runs made, not a "
              "theorem. That the Go functions are clients of the fine-grained model (all shared-state accesses between Lock and Unlock; their "
              "steps compose to the sequential operation) rests on the lock facts plus correspondence, not on a Go semantics; the split of "
              "process() into micro-steps is one level deep. artifact_snapshot inherits C11's guards (acyclic graph, processors that read all "
              "wired inputs). HTTP plumbing, graph edits concurrent with the three calls, ModelVersion() (unlocked read, outside the three entry "
-             "points) are not modelled.",
+             "points) are not modelled. Value semantics of returned results (no aliasing with buffers a later update writes) is a tested "
+             "predicate (results_immutable), not a theorem.",
         technique="Lean 4 proof (linearizability of the atomic lock protocol over C11's model, refinement from the fine-grained locked system, "
                   "verified witness checker) + regenerated lock facts + recorded-history validation + race detector"),
 )
